@@ -366,7 +366,7 @@ def run(tier, seed):
     # G1: prefix-boundary grid
     g1, r1 = gen("grid1", "grid", seed, units=special, ms=["0.999", "1", "1000"], signs=["", "-"], ks=[1, 2, 3], js=js, stride=1)
     run.add_tlc(r1, "MC_PartsGen grid (base + derived units)")
-    g2, r2 = gen("grid2", "grid", seed, units=sample, ms=["0.999", "1", "1000"], signs=["", "-"], ks=[1, 2, 3], js=js, stride=3 if thorough else 18)
+    g2, r2 = gen("grid2", "grid", seed, units=sample, ms=["0.999", "1", "1000"], signs=["", "-"], ks=[1, 2, 3], js=js, stride=3 if thorough else 12)
     run.add_tlc(r2, "MC_PartsGen grid (sampled units)")
     decide(run, [{"qs": c["q"]} for c in g1 + g2], "grid", shards, lookups, quant_path, stats)
     run.sample({"leg": "grid", "q": g1[len(g1) // 2]["q"]})
